@@ -35,6 +35,13 @@
                Checkpoints (`fp=`): content of both key sets after loading, of the session id after every connection
                (ticket, master secret, PSK with sni/alpn/cipher/early-data/lifetime) and of the server's session-cache
                entry, compared with the fault-free run by props/C19.py.
+     DTLS      dtls12 (RSA cert, ECDHE; full + session-id resumption), dtls12-ticket, dtls12-cauth, dtls12-ec-cauth (ECDSA
+               CertificateVerify saved aside for retransmits), dtls10-cbc, dtls12-frag (PMTU 400: fragmented handshake messages
+               and their reassembly), dtls12-lost1/2/6 and dtls12-cauth-lost5 (one flight of the first connection is lost; its
+               sender times out: matrixDtlsGetOutdata with nothing pending -> dtlsResendFlight, so the RESEND path runs under
+               injection), negd12-name/ca/clientcert.  Datagrams travel whole (one matrixSslReceivedData call each); output is
+               fetched with the documented loop `while (matrixDtlsGetOutdata() > 0) matrixDtlsSentData()` - the final 0 is how
+               the library learns that the flight went out.  H_FAULT_TRACE=1 prints one line per datagram.
      negative  twins: one verification step each that MUST refuse the handshake without any fault (expectedName mismatch,
                server chain not under the client's CA, client certificate not trusted by the server, rejecting certificate
                callback, different PSKs): under NO fault may a side listed in `neg` (1 client, 2 server) report
@@ -79,13 +86,13 @@ void __real_free(void *p);
    macros: the name of the call in progress, the side, and the return code are known to the verdict. */
 enum { A_NONE, A_OPEN, A_CLOSE, A_NEWKEYS, A_DELKEYS, A_LOADRSAMEM, A_LOADECMEM, A_LOADKEYSMEM, A_LOADKEYS, A_LOADTICKET,
        A_NEWSID, A_DELSID, A_NEWCLIENT, A_NEWSERVER, A_DELSESSION, A_GETOUT, A_SENT, A_GETREADBUF, A_RECEIVED,
-       A_PROCESSED, A_ENCODE, A_CLOSURE, A_OPTS, A_LOADPSK, A_GETWRITEBUF, A_ENCODEWRITEBUF, A_MAX };
+       A_PROCESSED, A_ENCODE, A_CLOSURE, A_OPTS, A_LOADPSK, A_GETWRITEBUF, A_ENCODEWRITEBUF, A_DTLSGETOUT, A_DTLSSENT, A_MAX };
 static const char *A_NAME[A_MAX] = { "-", "matrixSslOpen", "matrixSslClose", "matrixSslNewKeys", "matrixSslDeleteKeys",
     "matrixSslLoadRsaKeysMem", "matrixSslLoadEcKeysMem", "matrixSslLoadKeysMem", "matrixSslLoadKeys", "matrixSslLoadSessionTicketKeys",
     "matrixSslNewSessionId", "matrixSslDeleteSessionId", "matrixSslNewClientSession", "matrixSslNewServerSession",
     "matrixSslDeleteSession", "matrixSslGetOutdata", "matrixSslSentData", "matrixSslGetReadbuf", "matrixSslReceivedData",
     "matrixSslProcessedData", "matrixSslEncodeToOutdata", "matrixSslEncodeClosureAlert", "matrixSslSessOptsSet*",
-    "matrixSslLoadTls13Psk", "matrixSslGetWritebuf", "matrixSslEncodeWritebuf" };
+    "matrixSslLoadTls13Psk", "matrixSslGetWritebuf", "matrixSslEncodeWritebuf", "matrixDtlsGetOutdata", "matrixDtlsSentData" };
 static void api_enter(int id, const void *ssl);
 static int32 api_leave(int id, int32 rc, const uint32 *ptlen);
 #define F_I(id, ssl, call) ({ api_enter(id, ssl); int32 rc__ = (int32) (call); api_leave(id, rc__, NULL); })
@@ -118,6 +125,8 @@ static int32 api_leave(int id, int32 rc, const uint32 *ptlen);
 #define matrixSslLoadTls13Psk(k, key, kl, id, il, p) F_I(A_LOADPSK, NULL, matrixSslLoadTls13Psk(k, key, kl, id, il, p))
 #define matrixSslGetWritebuf(s, b, l) F_I(A_GETWRITEBUF, s, matrixSslGetWritebuf(s, b, l))
 #define matrixSslEncodeWritebuf(s, l) F_I(A_ENCODEWRITEBUF, s, matrixSslEncodeWritebuf(s, l))
+#define matrixDtlsGetOutdata(s, b) F_I(A_DTLSGETOUT, s, matrixDtlsGetOutdata(s, b))
+#define matrixDtlsSentData(s, n) F_I(A_DTLSSENT, s, matrixDtlsSentData(s, n))
 
 #include "testkeys/RSA/2048_RSA.h"
 #include "testkeys/RSA/2048_RSA_KEY.h"
@@ -151,7 +160,7 @@ int __wrap_psGetBrokenDownGMTime(struct tm *t, int offset)
 { memset(t, 0, sizeof(*t)); t->tm_year = 2020 - 1900; t->tm_mon = 5; t->tm_mday = 15; t->tm_hour = 12; (void) offset; return 0; }
 
 /* ---------------------------------------------------------------- the two peers and the wire between them */
-typedef struct { ssl_t *ssl; int is_server; int done_events; int cb_calls; int32 cb_last_alert; } peer_t;
+typedef struct { ssl_t *ssl; int is_server; int done_events; int cb_calls; int32 cb_last_alert; int dead; } peer_t;
 static peer_t g_c, g_s;
 #define QCAP (1 << 20)
 typedef struct { unsigned char *b; size_t len; } queue_t;
@@ -159,6 +168,17 @@ static queue_t g_c2s, g_s2c;
 static void q_init(queue_t *q) { if (!q->b) q->b = malloc(QCAP); q->len = 0; }
 static void q_push(queue_t *q, const unsigned char *d, size_t l) { if (q->len + l <= QCAP) { memcpy(q->b + q->len, d, l); q->len += l; } }
 static void q_pop(queue_t *q, size_t l) { memmove(q->b, q->b + l, q->len - l); q->len -= l; }
+/* DTLS: the wire carries datagrams (4-byte length prefix in the queue); a flight = what one turn of a peer puts on the wire */
+static int g_dtls = 0;                /* the scenario runs DTLS sessions */
+static int g_trace = 0;               /* H_FAULT_TRACE=1: one stderr line per datagram / API result (for replays) */
+#define TR(...) do { if (g_trace) fprintf(stderr, __VA_ARGS__); } while (0)
+static int g_drop_flight = 0;         /* > 0: the n-th flight of the connection is lost once (its sender then times out and resends) */
+static int g_flight_no = 0, g_resends = 0; static int g_lost_sender = -1;
+static void q_push_dg(queue_t *q, const unsigned char *d, size_t l) {
+    unsigned char h[4] = { (unsigned char) (l >> 24), (unsigned char) (l >> 16), (unsigned char) (l >> 8), (unsigned char) l };
+    if (q->len + l + 4 <= QCAP) { memcpy(q->b + q->len, h, 4); memcpy(q->b + q->len + 4, d, l); q->len += l + 4; }
+}
+static size_t q_dglen(queue_t *q) { if (q->len < 4) return 0; size_t l = ((size_t) q->b[0] << 24) | ((size_t) q->b[1] << 16) | ((size_t) q->b[2] << 8) | q->b[3]; return l + 4 <= q->len ? l : 0; }
 static size_t q_reclen(queue_t *q) { if (q->len < 5) return 0; size_t l = 5 + ((size_t) q->b[3] << 8) + q->b[4]; return l <= q->len ? l : 0; }
 
 /* ---------------------------------------------------------------- injector state */
@@ -372,8 +392,8 @@ static int32 api_leave(int id, int32 rc, const uint32 *ptlen)
     case A_NEWSID: case A_OPTS: case A_NEWSERVER: case A_LOADPSK:
         ok = (rc == PS_SUCCESS); break;
     case A_NEWCLIENT: ok = (rc == MATRIXSSL_REQUEST_SEND); break;
-    case A_GETOUT: case A_GETREADBUF: case A_ENCODE: case A_GETWRITEBUF: case A_ENCODEWRITEBUF: ok = 1; break;   /* byte counts */
-    case A_SENT: ok = (rc == MATRIXSSL_SUCCESS || rc == MATRIXSSL_REQUEST_SEND || rc == MATRIXSSL_REQUEST_CLOSE || rc == MATRIXSSL_HANDSHAKE_COMPLETE); break;
+    case A_GETOUT: case A_GETREADBUF: case A_ENCODE: case A_GETWRITEBUF: case A_ENCODEWRITEBUF: case A_DTLSGETOUT: ok = 1; break;   /* byte counts */
+    case A_SENT: case A_DTLSSENT: ok = (rc == MATRIXSSL_SUCCESS || rc == MATRIXSSL_REQUEST_SEND || rc == MATRIXSSL_REQUEST_CLOSE || rc == MATRIXSSL_HANDSHAKE_COMPLETE); break;
     case A_RECEIVED: case A_PROCESSED:
         ok = (rc == MATRIXSSL_SUCCESS || rc == MATRIXSSL_REQUEST_SEND || rc == MATRIXSSL_REQUEST_RECV || rc == MATRIXSSL_REQUEST_CLOSE ||
               rc == MATRIXSSL_APP_DATA || rc == MATRIXSSL_HANDSHAKE_COMPLETE || rc == MATRIXSSL_RECEIVED_ALERT || rc == MATRIXSSL_APP_DATA_COMPRESSED);
@@ -405,10 +425,49 @@ static int32_t cb_server(ssl_t *ssl, psX509Cert_t *cert, int32_t alert)
 { (void) ssl; (void) cert; g_s.cb_calls++; g_s.cb_last_alert = alert; return alert; }
 
 /* ---------------------------------------------------------------- moving bytes */
+#ifdef USE_DTLS
+/* DTLS: matrixDtlsGetOutdata with nothing pending means TIMEOUT (the last flight is rebuilt and sent again), so it is only
+   called with output pending, or with force (a retransmission asked for by matrixSslReceivedData / a simulated timeout).
+   A forced rebuild is only attempted at the flight boundaries (harness/sess.h: dtls_resend_safe; elsewhere the rebuild is
+   known to fault without any allocation failure - open C16 findings - and a timeout cannot happen there in these runs). */
+static int dtls_resend_safe(ssl_t *s) {
+    if (s->flags & SSL_FLAGS_SERVER)
+        return s->hsState == SSL_HS_CLIENT_HELLO || s->hsState == SSL_HS_DONE || (s->hsState == SSL_HS_FINISHED && (s->flags & SSL_FLAGS_RESUMED));
+    return s->hsState == SSL_HS_SERVER_HELLO || s->hsState == SSL_HS_DONE || (s->hsState == SSL_HS_FINISHED && !(s->flags & SSL_FLAGS_RESUMED));
+}
+static size_t flush_out_dtls(peer_t *p, int force)
+{
+    size_t total = 0; unsigned char *buf; int32 n; int guard = 0, flight_counted = 0, drop = 0;
+    if (!p->ssl || p->dead) return 0;
+    if (p->ssl->flags & (SSL_FLAGS_ERROR | SSL_FLAGS_CLOSED)) force = 0;
+    if (p->ssl->outlen == 0 && (!force || !dtls_resend_safe(p->ssl))) return 0;
+    if (p->ssl->outlen == 0) g_resends++;
+    /* the application loop of the API documentation: fetch datagrams until matrixDtlsGetOutdata returns 0 - that last call
+       is how the library learns that the flight has gone out (flightDone); a further call with nothing pending is a TIMEOUT */
+    while (guard++ < 400) {
+        n = matrixDtlsGetOutdata(p->ssl, &buf);
+        TR("%c getout n=%d hs=%d force=%d\n", p->is_server ? 'S' : 'C', n, (int) p->ssl->hsState, force);
+        if (n < 0) { p->dead = 1; break; }
+        if (n == 0) break;
+        if (!flight_counted) { flight_counted = 1; g_flight_no++; drop = (g_drop_flight > 0 && g_flight_no == g_drop_flight); if (drop) g_lost_sender = p->is_server; }
+        if (!drop) q_push_dg(p->is_server ? &g_s2c : &g_c2s, buf, (size_t) n);
+        total += (size_t) n;
+        int32 rc = matrixDtlsSentData(p->ssl, (uint32) n);
+        TR("%c sent %d flight=%d drop=%d rc=%d outlen=%d\n", p->is_server ? 'S' : 'C', n, g_flight_no, drop, rc, (int) p->ssl->outlen);
+        if (rc == MATRIXSSL_HANDSHAKE_COMPLETE) p->done_events++;
+        else if (rc == MATRIXSSL_REQUEST_CLOSE) break;
+        else if (rc < 0) { p->dead = 1; break; }
+    }
+    return total;
+}
+#endif
 static size_t flush_out(peer_t *p)
 {
     size_t total = 0; unsigned char *buf; int32 n; int guard = 0;
-    if (!p->ssl) return 0;
+    if (!p->ssl || p->dead) return 0;
+#ifdef USE_DTLS
+    if (g_dtls) return flush_out_dtls(p, 0);
+#endif
     while (guard++ < 10000 && (n = matrixSslGetOutdata(p->ssl, &buf)) > 0) {
         q_push(p->is_server ? &g_s2c : &g_c2s, buf, (size_t) n);
         total += (size_t) n;
@@ -421,14 +480,15 @@ static size_t flush_out(peer_t *p)
 static void feed(peer_t *p, const unsigned char *d, size_t l)
 {
     size_t off = 0; int guard = 0; int side = p->is_server;
-    if (!p->ssl) return;
+    if (!p->ssl || p->dead) return;
     while (off < l && guard++ < 100000) {
         unsigned char *rb; int32 room = matrixSslGetReadbuf(p->ssl, &rb);
         if (room <= 0) return;
-        size_t n = l - off; if (n > (size_t) room) n = (size_t) room;
+        size_t n = l - off; if (n > (size_t) room) { if (g_dtls) return; n = (size_t) room; }     /* a datagram is delivered whole */
         memcpy(rb, d + off, n); off += n;
         unsigned char *pt; uint32 ptlen;
         int32 rc = matrixSslReceivedData(p->ssl, (uint32) n, &pt, &ptlen);
+        TR("%c recv %zu rc=%d hs=%d err=%d outlen=%d\n", p->is_server ? 'S' : 'C', n, rc, (int) p->ssl->hsState, (int) p->ssl->err, (int) p->ssl->outlen);
         int inner = 0;
         for (;;) {
             if (inner++ > 100000) return;
@@ -440,8 +500,15 @@ static void feed(peer_t *p, const unsigned char *d, size_t l)
             if (rc == MATRIXSSL_RECEIVED_ALERT) { rc = matrixSslProcessedData(p->ssl, &pt, &ptlen); continue; }
             if (rc == MATRIXSSL_HANDSHAKE_COMPLETE) { p->done_events++; break; }
             if (rc == MATRIXSSL_REQUEST_SEND || rc == MATRIXSSL_REQUEST_RECV || rc == MATRIXSSL_SUCCESS || rc == MATRIXSSL_REQUEST_CLOSE) break;
+            p->dead = 1;
             return;                                   /* error: the session is dead */
         }
+#ifdef USE_DTLS
+        if (g_dtls) {
+            /* REQUEST_SEND with nothing encoded = the peer's flight was a duplicate: the library asks for a retransmission */
+            if (rc == MATRIXSSL_REQUEST_SEND && p->ssl->outlen == 0) flush_out_dtls(p, 1); else flush_out_dtls(p, 0);
+        } else
+#endif
         flush_out(p);
         if (rc == MATRIXSSL_REQUEST_CLOSE) return;
     }
@@ -449,20 +516,31 @@ static void feed(peer_t *p, const unsigned char *d, size_t l)
 static int deliver_one(int dir)
 {
     queue_t *q = dir ? &g_s2c : &g_c2s; peer_t *to = dir ? &g_c : &g_s;
-    size_t l = q_reclen(q);
+    size_t l = g_dtls ? q_dglen(q) : q_reclen(q), h = g_dtls ? 4 : 0;
     if (!l) return 0;
-    unsigned char *tmp = malloc(l); memcpy(tmp, q->b, l); q_pop(q, l);
+    unsigned char *tmp = malloc(l); memcpy(tmp, q->b + h, l); q_pop(q, l + h);
     feed(to, tmp, l); free(tmp);
     return 1;
 }
+static int q_pending(queue_t *q) { return g_dtls ? q_dglen(q) != 0 : q_reclen(q) != 0; }
 static void pump(void)
 {
     int moved = 1, guard = 0;
     flush_out(&g_c); flush_out(&g_s);
-    while (moved && guard++ < 2000) {
+    while (guard++ < 2000) {
         moved = 0;
-        while (q_reclen(&g_c2s)) { deliver_one(0); moved = 1; }
-        while (q_reclen(&g_s2c)) { deliver_one(1); moved = 1; }
+        while (q_pending(&g_c2s)) { deliver_one(0); moved = 1; }
+        while (q_pending(&g_s2c)) { deliver_one(1); moved = 1; }
+        if (moved) continue;
+#ifdef USE_DTLS
+        /* nothing on the wire although the handshake is not over: the peer whose flight was lost times out and resends */
+        if (g_dtls && g_lost_sender >= 0 && g_resends < 3 && g_c.ssl && g_s.ssl && !g_c.dead && !g_s.dead &&
+            !(matrixSslHandshakeIsComplete(g_c.ssl) && matrixSslHandshakeIsComplete(g_s.ssl))) {
+            peer_t *w = g_lost_sender ? &g_s : &g_c;
+            if (flush_out_dtls(w, 1) > 0) continue;
+        }
+#endif
+        break;
     }
 }
 
@@ -560,6 +638,11 @@ typedef struct {
     int cb_reject;             /* client certificate callback refuses */
     int psk;                   /* TLS 1.3 external PSK: 1 same key on both sides, 2 different keys under the same identity */
     int must_not_complete;     /* sides that must never report completion: 1 client, 2 server */
+    /* DTLS */
+    int dtls;                  /* 1: DTLS (minor 3 = DTLS 1.2, minor 2 = DTLS 1.0) */
+    int pmtu;                  /* > 0: matrixDtlsSetPmtu (small = fragmented handshake messages, reassembly on the other side) */
+    int drop;                  /* > 0: the n-th flight of the FIRST connection is lost once; its sender times out and rebuilds
+                                  the flight (matrixDtlsGetOutdata with nothing pending -> dtlsResendFlight) */
 } scen_t;
 
 static sslKeys_t *g_ckeys, *g_skeys; static sslSessionId_t *g_sid;
@@ -723,14 +806,18 @@ static int connect_named(const scen_t *sc, const char *expected, int probe, cons
     ent_seed(g_seed + (uint64_t) (probe ? 100 + strlen(g_xname) : idx) * 7919);
     g_cb_reject_client = sc->cb_reject;
     v[0] = minor2ver(sc->minor);
+    g_dtls = sc->dtls; g_flight_no = 0; g_resends = 0; g_lost_sender = -1;
+    g_drop_flight = (!probe && idx == 0) ? sc->drop : 0;
     memset(&so, 0, sizeof so);
-    if (matrixSslSessOptsSetServerTlsVersions(&so, v, 1) < 0) return -1;
+    if (sc->dtls) so.versionFlag = SSL_FLAGS_DTLS | (sc->minor == 2 ? SSL_FLAGS_TLS_1_1 : SSL_FLAGS_TLS_1_2);
+    else if (matrixSslSessOptsSetServerTlsVersions(&so, v, 1) < 0) return -1;
     rc = matrixSslNewServerSession(&g_s.ssl, g_skeys, sc->cauth ? cb_server : NULL, &so);
     if (rc < 0) { g_s.ssl = NULL; return -2; }
     if (g_s.ssl->keys != g_skeys) cfg_lost("matrixSslNewServerSession:keys");
     if (sc->cauth && (g_s.ssl->sec.validateCert != cb_server || !(g_s.ssl->flags & SSL_FLAGS_CLIENT_AUTH))) cfg_lost("matrixSslNewServerSession:client-auth");
     memset(&so, 0, sizeof so);
-    if (matrixSslSessOptsSetClientTlsVersions(&so, v, 1) < 0) return -3;
+    if (sc->dtls) so.versionFlag = SSL_FLAGS_DTLS | (sc->minor == 2 ? SSL_FLAGS_TLS_1_1 : SSL_FLAGS_TLS_1_2);
+    else if (matrixSslSessOptsSetClientTlsVersions(&so, v, 1) < 0) return -3;
     if (sc->ticket) so.ticketResumption = 1;
     if (sc->suite) { suites[0] = (psCipher16_t) strtol(sc->suite, NULL, 16); nsuites = 1; }
     sni = mk_sni(expected);
@@ -785,18 +872,20 @@ static int exchange(void)
     if (!g_c.ssl || !g_s.ssl) return -1;
     for (size_t i = 0; i < sizeof APP_UP; i++) APP_UP[i] = (unsigned char) (i * 7 + 1);
     for (size_t i = 0; i < sizeof APP_DOWN; i++) APP_DOWN[i] = (unsigned char) (i * 13 + 5);
-    rc = matrixSslEncodeToOutdata(g_c.ssl, APP_UP, sizeof APP_UP); if (rc < 0) return -2;
+    /* DTLS: one record per datagram, below the path MTU */
+    size_t up = g_dtls ? 300 : sizeof APP_UP, down = g_dtls ? 200 : sizeof APP_DOWN;
+    rc = matrixSslEncodeToOutdata(g_c.ssl, APP_UP, (uint32) up); if (rc < 0) return -2;
     pump();
     size_t off = 0;
-    while (off < sizeof APP_DOWN) {
-        unsigned char *wb; rc = matrixSslGetWritebuf(g_s.ssl, &wb, (uint32) (sizeof APP_DOWN - off)); if (rc <= 0) return -3;
-        size_t n = sizeof APP_DOWN - off; if (n > (size_t) rc) n = (size_t) rc;
+    while (off < down) {
+        unsigned char *wb; rc = matrixSslGetWritebuf(g_s.ssl, &wb, (uint32) (down - off)); if (rc <= 0) return -3;
+        size_t n = down - off; if (n > (size_t) rc) n = (size_t) rc;
         memcpy(wb, APP_DOWN + off, n);
         rc = matrixSslEncodeWritebuf(g_s.ssl, (uint32) n); if (rc < 0) return -4;
         off += n;
     }
     pump();
-    if (g_app_bytes[1] - s0 != sizeof APP_UP || g_app_bytes[0] - c0 != sizeof APP_DOWN) return -5;
+    if (g_app_bytes[1] - s0 != up || g_app_bytes[0] - c0 != down) return -5;
     return 0;
 }
 static void closure(void)
@@ -813,6 +902,9 @@ static void teardown(void)
     if (g_sid) { matrixSslDeleteSessionId(g_sid); g_sid = NULL; }
     if (g_ckeys) { matrixSslDeleteKeys(g_ckeys); g_ckeys = NULL; }
     if (g_skeys) { matrixSslDeleteKeys(g_skeys); g_skeys = NULL; }
+#ifdef USE_DTLS
+    if (g_dtls) matrixDtlsSetPmtu(-1);
+#endif
     matrixSslClose();
 }
 
@@ -829,6 +921,10 @@ static int g_probed = 0;
 static void sc_tls(const scen_t *sc)
 {
     PHASE("setup");
+    g_dtls = sc->dtls;
+#ifdef USE_DTLS
+    if (sc->dtls) matrixDtlsSetPmtu(sc->pmtu > 0 ? sc->pmtu : -1);
+#endif
     if (app_setup(sc) < 0) { g_ok = 0; teardown(); return; }
     if (sc->kind == 2) {
         /* negative twin: without any fault this handshake must fail on the verification step under test */
@@ -902,6 +998,22 @@ static const scen_t SCEN[] = {
     { "neg13-cb",           2, 4, 0, 0, 0, NULL,   0, NULL,                0, 0, 1, 0, 3 },
     { "neg13-psk",          2, 4, 0, 0, 0, NULL,   0, "wrong.example.com", 0, 0, 0, 2, 3 },   /* wrong PSK; the certificate fallback must not pass either */
     { "neg12-ec-name",      2, 3, 1, 0, 0, "c02b", 0, "wrong.example.com", 0, 0, 0, 0, 3 },
+#ifdef USE_DTLS
+    /* DTLS: name                 kind minor key cauth ticket suite plan expected            cca sca cbrej psk mustnot dtls pmtu drop */
+    { "dtls12",               1, 3, 0, 0, 0, NULL,   0, NULL,                0, 0, 0, 0, 0, 1, 0, 0 },   /* RSA cert, ECDHE; full + session-id resumption */
+    { "dtls12-ticket",        1, 3, 0, 0, 1, NULL,   0, NULL,                0, 0, 0, 0, 0, 1, 0, 0 },   /* ticket resumption over DTLS */
+    { "dtls12-cauth",         1, 3, 0, 1, 0, NULL,   0, NULL,                0, 0, 0, 0, 0, 1, 0, 0 },
+    { "dtls12-ec-cauth",      1, 3, 1, 1, 0, "c02b", 0, NULL,                0, 0, 0, 0, 0, 1, 0, 0 },   /* ECDSA CertificateVerify saved aside for retransmits */
+    { "dtls10-cbc",           1, 2, 0, 0, 0, "c014", 0, NULL,                0, 0, 0, 0, 0, 1, 0, 0 },   /* DTLS 1.0, ECDHE-RSA-AES256-CBC-SHA */
+    { "dtls12-frag",          1, 3, 0, 1, 0, NULL,   0, NULL,                0, 0, 0, 0, 0, 1, 400, 0 }, /* PMTU 400: fragmented messages + reassembly */
+    { "dtls12-lost1",         1, 3, 0, 0, 0, NULL,   0, NULL,                0, 0, 0, 0, 0, 1, 0, 1 },   /* ClientHello lost */
+    { "dtls12-lost2",         1, 3, 0, 0, 0, NULL,   0, NULL,                0, 0, 0, 0, 0, 1, 0, 2 },   /* HelloVerifyRequest lost */
+    { "dtls12-cauth-lost5",   1, 3, 0, 1, 0, NULL,   0, NULL,                0, 0, 0, 0, 0, 1, 0, 5 },   /* client's Certificate..Finished flight lost */
+    { "dtls12-lost6",         1, 3, 0, 0, 0, NULL,   0, NULL,                0, 0, 0, 0, 0, 1, 0, 6 },   /* server's ChangeCipherSpec, Finished lost */
+    { "negd12-name",          2, 3, 0, 0, 0, NULL,   0, "wrong.example.com", 0, 0, 0, 0, 3, 1, 0, 0 },
+    { "negd12-ca",            2, 3, 0, 0, 0, NULL,   0, NULL,                2, 0, 0, 0, 3, 1, 0, 0 },
+    { "negd12-clientcert",    2, 3, 0, 1, 0, NULL,   0, NULL,                0, 2, 0, 0, 2, 1, 0, 0 },
+#endif
 };
 
 extern int __lsan_do_recoverable_leak_check(void) __attribute__((weak));
@@ -951,6 +1063,7 @@ int main(int argc, char **argv)
     g_maxchildren = atoi(argv[5]); if (g_maxchildren < 1) g_maxchildren = 1; if (g_maxchildren > MAXKIDS) g_maxchildren = MAXKIDS;
     g_maxocc = atoi(argv[6]); g_multi = atoi(argv[7]); g_seed = strtoull(argv[8], NULL, 10);
     int dry = argc > 9 && !strcmp(argv[9], "dry");      /* count only, no injection */
+    g_trace = getenv("H_FAULT_TRACE") != NULL;
     g_live = calloc(LIVE_CAP, sizeof *g_live); g_occ = calloc(OCC_CAP, sizeof *g_occ);
     { void *ub[4]; backtrace(ub, 4); }                  /* load the unwinder before counting starts */
     setpriority(PRIO_PROCESS, 0, 10);
